@@ -53,6 +53,8 @@ ScanFrom(t, i, esc) ==
               \* the character after a backslash
               IF ch = "\\" THEN "backslash"
               ELSE IF ch = "s" /\ ~Has(t, i + 1, "\\x0b") THEN "space-class"
+              \* Perl's white-space class spelled out (as the regexp printer does): it lacks the VT
+              ELSE IF ch = "t" /\ Has(t, i + 1, "\\n\\f\\r ") THEN "space-class"
               ELSE ScanFrom(t, i + 1, FALSE)
          ELSE IF ch = "\\" THEN ScanFrom(t, i + 1, TRUE)
          ELSE IF ch = "\"" THEN "quote"
